@@ -40,29 +40,35 @@ RULE = ("moduli: bit lengths {2,3,8,31..33,63..65,127..129,150,151,192,193,245,2
 MODELLED = [
     "schoolbook specifications of every public entry point (Ymq/Model/PolySpec.lean): cyclic convolution with offset window, product, "
     "middle product, power-series quotient/inverse, product of linear factors, (multi)point evaluation",
-    "arith_fft::_convolve_modn (Kronecker packing, digit slices, offset window; before and after the fix) over an abstract exact cyclic "
-    "product, with the dispatch table of convolve_modn translated from the source (Ymq/Model/Kronecker.lean, Ymq/Gen/Params.lean)",
+    "arith_fft::_convolve_modn (Kronecker packing, digit slices, offset window; before and after the fix) with the dispatch table of "
+    "convolve_modn translated from the source (Ymq/Model/Kronecker.lean, Ymq/Gen/Params.lean); the transform product is a parameter: the "
+    "driver and kronecker_cyclic_fft use cycFft = packed words as FInt<N> with top word 0 + the word-level mulfft + values read back",
     "arith_fft::FInt::{reduce, add, add_assign, add_small, sub, sub_assign, shl (all word-shift branches and both carry-free shortcuts), "
-    "shr, twiddle, mul (around an exact 2N-word product)}, butterfly, fft, mulfft word-exact incl. every debug_assert/overflow/index "
-    "panic site (Ymq/Model/FInt.lean)",
+    "shr, twiddle, mul (both top-word shortcuts and the general branch around an exact 2N-word product)}, butterfly, the recursive fft "
+    "(strided even/odd recursion, twiddle exponents idx / 2^k - idx, length-1/2 base cases, shr in the inverse direction), mulfft, "
+    "word-exact incl. every debug_assert/overflow/index panic site (Ymq/Model/FInt.lean)",
     "arith_fft::MultiZmodP::{new (tables without roots of unity), from_mint, _crt (three quotient-estimate branches, column loop, "
     "carry assert), redc} (Ymq/Model/Crt.lean)",
-    "arith_poly::Poly::{_basic_mul (double loop with the first-term rule), karatsuba (threshold, split point, three recursive products, "
-    "recombination, buffer reuse incl. stale contents), mul_karatsuba, mul_basic} over abstract coefficient operations, run by the driver on "
-    "residues mod n (Ymq/Model/PolyMul.lean)",
+    "arith_poly::Poly::{_basic_mul (double loop with the first-term rule), karatsuba (threshold and unbalanced fallback after the fix, "
+    "split point, three recursive products, recombination, buffer reuse incl. stale contents), mul_karatsuba, mul_basic} over abstract "
+    "coefficient operations, run by the driver on residues mod n (Ymq/Model/PolyMul.lean)",
     "arith_poly::Poly::{_longmul (NTT/Karatsuba switch), _middlemul (base cases, both NTT shortcuts, Hanrot-Quercia-Zimmermann recursion with "
     "its operand slices), _middlemul_xn, _middlemul_1x, _inv_mod_xn and _div_mod_xn (Newton iteration: base cases, precision schedule, "
     "1+xC shortcut conditions after the fix, general branch), middlemul, div_mod_xn} at value level with every assert/slice/index/scratch-"
     "length panic site; convolve_modn_ntt inside them is the exact convolution with its asserts (Ymq/Model/PolySeries.lean)",
+    "arith_poly::Poly::{_product_tree (leaves, the three merge forms, zero padding), from_roots, _multi_eval (reversed inverse of the top "
+    "node, one _middlemul per node, leaf rule), multi_eval (chunking, padding of a short chunk after the fix, truncation), roots_eval "
+    "(both branches: from_roots + _multi_eval; chunk products reduced modulo the top node by three _longmul with the reversed inverse, "
+    "all asserts incl. the debug_assert on the high halves)} (Ymq/Model/PolyTree.lean)",
 ]
 UNMODELLED = [
     "ZmodN::{mul, add, sub, redc, redc_large} are exact modular arithmetic on residues on the domain proved in C07 (redc_large_spec, "
-    "add_spec, redc_spec); mg_mul/mg_redc are the word-exact C07 models; arith::inv_mod64 (C08) is the mathematical inverse",
-    "Poly::{karatsuba, _middlemul (Hanrot-Quercia-Zimmermann), _inv_mod_xn, _div_mod_xn (Newton), _product_tree, _multi_eval (scaled "
-    "remainder tree)}, the Karatsuba routine inside FInt::mul and MultiZmodP::ntt_inplace have NO mechanism model and no theorem: they "
-    "are tied to the schoolbook specification by the K stream (specification model) and the O stream (Python) only",
+    "add_spec, redc_spec); MInt == is equality of residues (MInts are reduced: C07); mg_mul/mg_redc are the word-exact C07 models; "
+    "arith::inv_mod64 (C08) is the mathematical inverse",
+    "the Karatsuba routine inside FInt::mul (mulbasic/karatsuba on word slices; the model takes the exact 2N-word product) and "
+    "MultiZmodP::ntt_inplace with its root tables have NO mechanism model and no theorem: fint_mul, fint_mulfft, mzp_ntt and every "
+    "convolve_modn_ntt case tie them to the specification by K (specification model) and O (Python) only; Poly::mul_fft likewise",
     "bnum U1024/U2048 operators are modelled as Nat arithmetic; memory safety of get_unchecked is not modelled",
-    "the roots-of-unity tables of MultiZmodP::new (only exercised through convolve_modn_ntt / mzp_ntt against the specification)",
 ]
 
 
@@ -1103,30 +1109,37 @@ def nontrivial(case, ans):
     return len(case.line) > 40
 
 
-CLAIM = ("Lean theorems, for all inputs, about models of the mechanisms of arith_fft.rs: (1) convolve_modn (Kronecker substitution): for every "
-         "modulus of 1..500 bits, every power-of-two size the dispatch table accepts (2..2^19), all operand lengths, coefficients and output "
-         "windows, the model of convolve_modn over an exact Fermat-transform product reaches no panic site and returns the Montgomery form of the "
-         "schoolbook cyclic convolution (kronecker_cyclic, built on pack_unpack = no digit overlap / no wrap modulo F, and dispatch_ok = every "
-         "row of the table translated from the source meets the preconditions, incl. those of redc_large); the index formula of the pinned "
-         "tree is refuted on a concrete instance (kronecker_old_index_drops_wrap, defect F11, fixed); (2) FInt<N> modulo 2^(64N)+1, word-exact, "
-         "every N >= 1: reduce, add_assign, add_small, sub_assign, butterfly, shl (every shift amount, all word-shift branches and both "
-         "carry-free shortcuts), shr, twiddle return the right residue in the code's normal form without reaching a panic site; "
-         "sqrt2_sq and root_pow: the twiddle root is a 2^k-th root of unity; (3) MultiZmodP: the CRT quotient is unique and < w, the value "
-         "assembled by _crt is congruent to the reconstructed integer, the truncated quotient estimate is exact under stated bounds, and the "
-         "translated prime table is pairwise coprime with Montgomery constant p-2 and generators of order exactly 2^32 (ntt_table_ok); "
-         "(4) dft_conv: in any commutative ring the radix-2 recursion of fft/ntt_inplace computes the DFT for a principal 2^k-th root, the "
-         "inverse direction gives 2^k f, and transform/pointwise product/inverse transform is 2^k times the cyclic convolution. "
+CLAIM = ("Lean theorems, for all inputs, about executable models of arith_fft.rs and arith_poly.rs that the driver runs against the code. "
+         "(1) convolve_modn: for every modulus of 1..500 bits, every power-of-two size the dispatch table accepts (2..2^19), all operand "
+         "lengths, coefficients and output windows, the composed model (dispatch table translated from the source, Kronecker packing, "
+         "WORD-LEVEL Fermat transform product, digit extraction, redc_large, scatter with wrap-around) reaches no panic site and returns the "
+         "Montgomery form of the schoolbook cyclic convolution (kronecker_cyclic_fft; kronecker_cyclic is the same over any transform "
+         "product meeting ExactCyc, pack_unpack = no digit overlap / no wrap modulo F, dispatch_ok = every row meets the preconditions); "
+         "the index formula of the pinned tree is refuted on a concrete instance (kronecker_old_index_drops_wrap, defect F11, fixed). "
+         "(2) FInt<N> modulo 2^(64N)+1, word-exact, every N >= 1: reduce, add_assign, add_small, sub_assign, butterfly, shl, shr, twiddle, "
+         "mul return the right residue in the code's normal form without reaching a panic site; the recursive fft equals the algebraic "
+         "radix-2 recursion with the root sqrt2^(256N/2^k) (fft_spec, both directions) and mulfft is the cyclic convolution modulo F "
+         "(mulfft_spec = dft_conv instantiated; mulfft_exact discharges ExactCyc for every N of the table); the one ingredient taken as "
+         "exact is the 2N-word product inside FInt::mul. (3) MultiZmodP: arithmetic statements only: the CRT quotient is unique and < w, "
+         "the assembled value is congruent to the reconstructed integer, the truncated quotient estimate is exact under stated bounds "
+         "(crt_q_estimate_partial, not tied to the words read by the model), the translated prime table is pairwise coprime with Montgomery "
+         "constant p-2 and generators of order exactly 2^32 (ntt_table_ok); dft_conv (any commutative ring) is NOT instantiated for "
+         "ntt_inplace. (4) arith_poly over any commutative-ring image of the coefficient operations, no panic site reached: _basic_mul and "
+         "karatsuba (all operand lengths after the fix, buffer reuse, stale buffers) = product; _middlemul (HQZ) = middle slice; "
+         "_inv_mod_xn / div_mod_xn (Newton, after the fix) = series inverse / quotient; _product_tree / from_roots = product of (x - r_i); "
+         "_multi_eval / multi_eval = values at all points; roots_eval = prod_i (b_j - a_i) in both branches for |b| >= 2 (Barrett reduction "
+         "with the reversed inverse incl. its debug_assert). Inside these, convolve_modn_ntt is the exact convolution. "
          "Every public entry point (convolve_modn, convolve_modn_ntt, Poly::{from_roots, roots_eval, multi_eval, mul_karatsuba, mul_fft, "
-         "middlemul, div_mod_xn} and the private _inv_mod_xn, _longmul) is compared in both build profiles with an executable schoolbook "
-         "specification model (K) and judged by an independent Python schoolbook/big-integer oracle (O).")
+         "middlemul, div_mod_xn} and the private _inv_mod_xn, _longmul, karatsuba) is compared in both build profiles with the executable "
+         "models (K) and judged by an independent Python schoolbook/big-integer oracle (O).")
 LEVEL_NOTE = ("Trusted: Lean kernel (+propext, Classical.choice, Quot.sound); the hand-written models' correspondence to the Rust code (sampled by "
               "the harness in both profiles, not proved); the translator for the dispatch table and the prime table; Python integers in the oracle. "
-              "PARTIAL BY DESIGN, no theorem, tied to the schoolbook specification by K/O only: Poly::karatsuba and the Karatsuba routine inside "
-              "FInt::mul (the FInt model takes the exact 2N-word product), _middlemul (Hanrot-Quercia-Zimmermann), Newton _inv_mod_xn/_div_mod_xn, "
-              "product and remainder trees (_product_tree, _multi_eval), MultiZmodP::ntt_inplace. The recursive Fermat fft/mulfft is modelled "
-              "word-exactly and compared; dft_conv proves the algebraic recursion (any commutative ring, principal root; root_half: the code's root "
-              "qualifies) but is not instantiated down to words because FInt::mul is K/O-only: kronecker_cyclic takes the exactness of the "
-              "transform product as its hypothesis ExactCyc, checked on the code by the fint_mulfft cases. crt_q_estimate_partial is an arithmetic statement: that the words "
-              "read by the three branches of the model equal the truncated quotients of the prime table is only checked by K/O (mzp_crt, mzp_redc). "
-              "ZmodN operations are exact modular arithmetic on the domain proved in C07; bnum operators are Nat arithmetic.")
+              "NO THEOREM, tied to the schoolbook specification by K/O only: the Karatsuba routine inside FInt::mul (the FInt model takes the "
+              "exact 2N-word product; defect in it found by K/O and fixed, b8c535f), MultiZmodP::ntt_inplace and the NTT-based "
+              "convolve_modn_ntt at word level (exact convolution inside the arith_poly models), Poly::mul_fft, roots_eval with |b| = 1. "
+              "crt_q_estimate_partial is an arithmetic statement: that the words read by the three branches of the model equal the truncated "
+              "quotients of the prime table is only checked by K/O (mzp_crt, mzp_redc). The arith_poly theorems are about models over abstract "
+              "coefficient operations (Hom/HomE/HomC: ring homomorphic image, sound zn.inv, == is equality of residues); natOps n (what the "
+              "driver runs) is proved to be such an instance for ZMod n. ZmodN operations are exact modular arithmetic on the domain proved in "
+              "C07; bnum operators are Nat arithmetic.")
 TECHNIQUE = "Lean 4 proof about a hand model + differential correspondence check + spec oracle"
